@@ -300,9 +300,54 @@ def run(chk):
         kt = sf.count_residues(A(c[0]))
         return ('unord\t' + ','.join(annot.esc(k) for k in ks.elements()) + '\t' + ','.join(annot.esc(k) for k in kt.elements()))
 
+    def text_keyed(c):
+        ks = sf.count_residues(A(c[1][0]))
+        kt = sf.count_residues(A(c[0]))
+        return str(all(ks[k] <= kt[k] for k in ks))
+
+    # the abstract test on the keys that count_residues produces (what is_subsequence did before 92a74e5)
     unord_cases = [c for c in mod_cases if not c[0]._static_mods and not c[1][0]._static_mods]
-    chk.correspond('is_subsequence_unordered', DRV, unord_cases, unord_line,
-                   lambda c: str(pt.is_subsequence(A(c[1][0]), A(c[0]), order=False)), nontrivial_fn=lambda c, im: im == 'True')
+    chk.correspond('count_residues_keys_contained', DRV, unord_cases, unord_line, text_keyed,
+                   nontrivial_fn=lambda c, im: im == 'True')
+
+    # the real function, annotations in, answer out: condense_static_mods -> split -> key by == -> Counter
+    def exc(e):
+        return 'ERR:' + type(e).__name__
+
+    def unordf_impl(c):
+        try:
+            return str(pt.is_subsequence(A(c[1]), A(c[0]), order=False))
+        except (ValueError, TypeError, KeyError) as e:
+            return exc(e)
+
+    uf_cases = []
+    for c in mod_cases:
+        for q in c[1]:
+            uf_cases.append((c[0], q))
+    for _ in range(nrand // 2):
+        t = annot.gen_annotation(rng, 1, 10, residues=rng.choice(['AK', 'ACKMST']), p=0.5, value_pool=POOL[:3], max_mods=3, mult_p=0.1)
+        n = len(t._sequence)
+        idx = rng.sample(range(n), rng.randint(1, n))
+        q = copy.deepcopy(t)
+        q._sequence = ''.join(t._sequence[k] for k in idx)
+        q._internal_mods = {j: copy.deepcopy(t._internal_mods[k]) for j, k in enumerate(idx)
+                            if t._internal_mods and k in t._internal_mods} or None
+        q._intervals = None
+        if 0 not in idx[:1]:
+            q._nterm_mods = None
+        if n - 1 not in idx[-1:]:
+            q._cterm_mods = None
+        for v in (q._internal_mods or {}).values():
+            rng.shuffle(v)
+        if rng.random() < 0.3:
+            q = perturb(rng, q)
+        uf_cases.append((t, q))
+    lit = chk.driver(DRV, ['literal\t' + annot.dump(c[0]) for c in uf_cases])
+    lit2 = chk.driver(DRV, ['literal\t' + annot.dump(c[1]) for c in uf_cases])
+    uf_cases = [c for c, a, b in zip(uf_cases, lit, lit2) if a == '1' and b == '1']
+    chk.correspond('is_subsequence_unordered', DRV, uf_cases,
+                   lambda c: f'unordf\t{annot.dump(c[1])}\t{annot.dump(c[0])}', unordf_impl,
+                   nontrivial_fn=lambda c, im: im == 'True')
 
     # ---------------------------------------------------------------- oracles: the property on the real code
     big = chk.broken()
@@ -405,6 +450,13 @@ def prop_modified(pt, c):
                 return (f'ProFormaAnnotation.is_subsequence: {q.serialize()!r} in {t.serialize()!r} = {not bool(exp)}, '
                         f'offsets with equal residues and modifications are {exp}')
         occs += [(i, len(q._sequence)) for i in exp]
+        # ordered containment implies unordered containment (labile mods sit on the first piece only and a cut interval
+        # has no agreed reading: both excluded)
+        if (not c['ign'] and exp and not t._labile_mods and not q._labile_mods and not t._intervals and not q._intervals
+                and not t._static_mods and not q._static_mods):
+            if not pt.is_subsequence(copy.deepcopy(q), copy.deepcopy(t), order=False):
+                return (f'is_subsequence({q.serialize()!r}, {t.serialize()!r}) is True with order=True (offsets {exp}) '
+                        f'but False with order=False')
     if decidable:
         exp = expected_cov(n, occs, c['acc'])
         got = list(pt.coverage(copy.deepcopy(t), [copy.deepcopy(q) for q in qs], accumulate=c['acc'], ignore_mods=c['ign']))
@@ -418,7 +470,15 @@ def prop_modified(pt, c):
 
 
 def prop_unordered(pt, c):
+    import random
     t, q = annot.undump(c['t']), annot.undump(c['q'])
+    q2 = copy.deepcopy(q)
+    r = random.Random(len(c['t']) + len(c['q']))
+    for v in (q2._internal_mods or {}).values():
+        r.shuffle(v)
+    if pt.is_subsequence(copy.deepcopy(q2), copy.deepcopy(t), order=False) != pt.is_subsequence(copy.deepcopy(q), copy.deepcopy(t), order=False):
+        return (f'is_subsequence(order=False) changes when the modifications of a residue are written in another order: '
+                f'{q.serialize()!r} vs {q2.serialize()!r} in {t.serialize()!r}')
     mt, mq = residue_multiset(t), residue_multiset(q)
     exp = all(mq[k] <= mt[k] for k in mq)
     got = pt.is_subsequence(copy.deepcopy(q), copy.deepcopy(t), order=False)
@@ -467,35 +527,6 @@ def replay(chk, obj):
     return 0 if r is None else 1
 
 
-KF_ORDER = 'KF-C16-unordered-mod-order'
-
-
-def _sort_residue_mods(a):
-    if a._internal_mods:
-        for v in a._internal_mods.values():
-            v.sort(key=lambda m: (str(type(m.val)), str(m.val), m.mult))
-    return a
-
-
 def classify(f):
-    """known finding: the unordered containment test keys residues by their serialisation, so two residues carrying the same
-    modifications written in a different order count as different (the ordered search treats them as equal). Matched
-    structurally: some residue carries >= 2 modifications, and the failure disappears once the modifications of every residue
-    of both annotations are put into one canonical order."""
-    c = f['case']
-    o = f['oracle']
-    if o == 'corpus':
-        o, c = c.get('oracle'), c.get('case')
-    if o != 'unordered_containment':
-        return None
-    import peptacular as pt
-    t, q = annot.undump(c['t']), annot.undump(c['q'])
-    if not any(len(v) >= 2 for a in (t, q) for v in (a._internal_mods or {}).values()):
-        return None
-    c2 = {'t': annot.dump(_sort_residue_mods(t), False), 'q': annot.dump(_sort_residue_mods(q), False)}
-    try:
-        if prop_unordered(pt, c2) is None:
-            return KF_ORDER
-    except Exception:  # noqa
-        return None
+    """no known finding is open for C16 (KF-C16-overlapping-occurrences and KF-C16-unordered-mod-order are repaired)"""
     return None
